@@ -356,6 +356,21 @@ func generate(thorough bool) []layout {
 			out = append(out, layout{Name: fmt.Sprintf("dropins-%s-%d", f, mask), Entries: []entry{{f, "exec"}}, Dropins: d})
 		}
 	}
+	// the same plugin installed at two indices: each instance gets its own index-specific drop-in, else
+	// the common one
+	for mask := 0; mask < 8; mask++ {
+		d := map[string]string{"unrelated.conf": "unrelated"}
+		if mask&1 != 0 {
+			d["10-ok-a.conf"] = "specific:10"
+		}
+		if mask&2 != 0 {
+			d["20-ok-a.conf"] = "specific:20"
+		}
+		if mask&4 != 0 {
+			d["ok-a.conf"] = "generic:a"
+		}
+		out = append(out, layout{Name: fmt.Sprintf("twice-%d", mask), Entries: []entry{{"10-ok-a", "exec"}, {"20-ok-a", "exec"}}, Dropins: d})
+	}
 	// directory content
 	pool := []entry{{"10-ok-a", "exec"}, {"05-ok-b", "exec"}, {"20-ok-c", "noexec"}, {"30-ok-d", "dir"}, {"40-ok-e", "exec"}}
 	for mask := 1; mask < 32; mask++ {
